@@ -5,9 +5,9 @@
 //@ def thorough BTN=66
 //@ enforce XMLString_binToTextUL
 //@ entry h_str_bintext
+//@ note ND (digit count) is a harness-chosen witness pinned by the precondition (two shifts, or two comparisons with the power-of-ten table): every value has exactly one such ND, so nothing is lost
 //@ note P: iterations unbounded through loop contracts; every unsigned long value, every radix, every maxChars <= BTN (thorough: 66 > 64 binary digits); the target buffer has exactly the documented maxChars+1 elements, END-aligned
-//@ note radix 2/8/16: the complete output (digit count, every digit, terminator) is specified through shifts; radix 10: bounds, digit characters and terminator here -- 64-bit division chains do not go through SAT as loop invariants; the decimal digit VALUES are compared with the value in str_bintext_w
-//@ note BT_LEN10 (length of the decimal output) is named by the harness after the call from the result; the contract is enforced for the value the harness will name (ghost prophecy: BT_LEN10 is nondet, constrained after the call)
+//@ note radix 2/8/16: the complete output (digit count, every digit, terminator) is specified through shifts; radix 10: exact digit count (witness ND against a power-of-ten table: one division by ten removes one digit), digit characters and terminator here; the decimal digit VALUES are compared with the value in str_bintext_w (toFormat / 10^k as a loop invariant does not go through SAT)
 #define VERIF_DEFINE_GHOSTS
 #include "verif_prelude.h"
 XMLSize_t G;
@@ -25,7 +25,7 @@ struct { XMLCh a[BTN + 1]; } OUT;
 void h_str_bintext(void)
 {
   unsigned long v; XMLSize_t maxChars; unsigned int radix;
-  VERIF_INPUT(OUT); VERIF_INPUT(G); VERIF_INPUT(v); VERIF_INPUT(maxChars); VERIF_INPUT(radix);
+  VERIF_INPUT(OUT); VERIF_INPUT(G); VERIF_INPUT(v); VERIF_INPUT(maxChars); VERIF_INPUT(radix); VERIF_INPUT(ND);
   VERIF_ASSUME(maxChars <= BTN);
   verif_thrown = 0;
   XMLString_binToTextUL(v, OUT.a + (BTN + 1 - (maxChars + 1)), maxChars, radix, (MemoryManager *)0);
